@@ -445,7 +445,10 @@ static int Run()
     if (!au || au->blockhash != blocks[110].GetHash()) { printf("HARNESS-ERROR C20: source chain does not match the regtest assumeutxo block\n"); return 2; }
 
     // ---------------------------------------------------------------- target node
-    SetMockTime(last_time + 100);
+    // The clock is 3 days past the last block: T stays in initial block download (the situation loadtxoutset is made
+    // for). Outside IBD every full flush starts, with probability 1/320, an asynchronous chainstate compaction
+    // thread (Chainstate::FlushStateToDisk -> CompactFullAsync), which would make fork() unsound.
+    SetMockTime(last_time + 3 * 24 * 3600);
     ck::NodeOpts no;
     ck::Node T(no);
     for (int h = 1; h <= 100; h++) {
@@ -458,6 +461,7 @@ static int Run()
     };
     for (int h = 101; h <= 109; h++) add_header(h);
     T.Flush();
+    if (!T.chainman().IsInitialBlockDownload()) { printf("HARNESS-ERROR C20: target node left IBD\n"); return 2; }
 
     const auto mstart = Params().MessageStart();
     World w{T, scratch};
